@@ -257,7 +257,16 @@ def run(prop, tier, seed, t0):
     # ---------------------------------------------------------------- correspondence engines
     kf = C.known_findings()
     known = {k["key"]: k for k in kf["open"] if k["property"] == prop}
-    results = [(e, ENGINES[e](prop, cfg, tier, seed)) for e in cfg["engines"]]
+    results = []
+    for e in cfg["engines"]:
+        try:
+            results.append((e, ENGINES[e](prop, cfg, tier, seed)))
+        except C.Broken as ex:
+            # one engine that cannot run against this tree is a broken tie of its own; the others still decide
+            C.log("engine %s could not run: %s" % (e, str(ex)[-1500:]))
+            results.append((e, {"hits": [], "broken": ["engine %s could not run against this tree: %s" % (e, str(ex)[-600:])],
+                                "info": {"evaluations": 0, "distinct": 0, "rule": "(did not run)", "samples": [], "counts": {}, "coq_cases": 0,
+                                         "stats": {}, "ndiffs": 0}, "search": None, "first_diff": None}))
     hits, known_hit = [], {}
     for e, r in results:
         broken += r["broken"]
@@ -300,6 +309,17 @@ def run(prop, tier, seed, t0):
                                "first_diverging_case": firsts[0] if firsts else None,
                                "note": "every property oracle holds on every implementation output explored (%s); either the model must follow "
                                        "a harmless change of the code, or the search was not deep enough" % ", ".join(cfg["engines"])})
+    # a failing builder history is minimised before it is written to the replay file
+    if violations and violations[0]["kind"] == "failing-input" and "history" in violations[0]["input"] \
+            and "fragments" not in violations[0]["input"] and cfg.get("oracle"):
+        v = violations[0]
+        try:
+            small, o = e1.shrink_e1(v["input"]["history"], cfg["oracle"])
+            if o is not None and len(small) < len(v["input"]["history"]):
+                v["input"] = {"history": small, "shrunk_from_requests": len(v["input"]["history"].split())}
+                v["what"] = o["what"]
+        except Exception as ex:  # shrinking is a convenience: the original input stays
+            C.log("shrinking failed: %s" % ex)
     # ---------------------------------------------------------------- evidence
     nobl = len(theorems)
     evaluations = sum(r["info"]["evaluations"] for e, r in results)
